@@ -171,7 +171,13 @@ func TestC14_NestingBound(t *testing.T) {
 				}
 				if p.o.kind != kRegFile {
 					if r, _ := sysx.PollFd(p.o.rawFd, ev, 1000); r == 0 {
-						w.infraf("deferred link #%d (%s on %s) never became ready", p.id, p.kind, p.o.name())
+						if ev == sysx.POLLIN && sysx.Unread(p.o.rawFd) == 0 {
+							// everything this chain reads was put into the kernel before it started: if nothing is left for the
+							// deferred link, what it was to receive has been taken from the socket and given to nobody
+							w.fail("deferred link #%d (%s on %s, issued at depth %d) has nothing left to read although its data was queued before the chain started: the bytes/datagram were consumed when the operation was deferred and never delivered", p.id, p.kind, p.o.name(), p.depthAt)
+						} else {
+							w.infraf("deferred link #%d (%s on %s) never became ready", p.id, p.kind, p.o.name())
+						}
 					}
 				}
 			}
